@@ -425,6 +425,7 @@ def run(ctx):
     from .C13 import _local_map_keys_agree
     _local_map_keys_agree(ctx, rid="R20.11")
     module_def_strings_are_nullable(ctx)
+    merged_entities_keep_the_surviving_index(ctx)
 
     # ------------------------------------------------------------- R20.7 = R13.2
     ctx.rule("R20.7", "by-name lookups are exact only if the name tables are rebuilt after every load: merge_from resets the freshness word after its last mutation, lookup() refreshes exactly the stale table (= R13.2)")
@@ -826,3 +827,39 @@ def module_def_strings_are_nullable(ctx):
             ctx.ob("R20.12", "%s|string(%s)|behind-non-null" % (f.name, key), ok, f.loc(c),
                    "a string is built from %s %s a test that it is not null" % (key, "behind" if ok else "WITHOUT"))
     ctx.floor("R20.12", "strings built from module-definition fields in the database library", n, 2)
+
+
+def merged_entities_keep_the_surviving_index(ctx):
+    """R20.13: when merge_from() finds that an incoming entity is one the database already has (`remap.in_map(i)`), the
+    incoming index i is DISCARDED: nothing is stored under it.  On that branch every index this database keeps (its
+    enumeration lists: _global_types, _all_types, ...) must be the surviving one, `remap.map_from(i)`, never i itself -
+    `interrogate_get_global_type(n)` would otherwise return an index that names no entity, and the entity that became
+    global would never be enumerated.  (Seed S9-C20: `_global_types.push_back(other_type_index)`.)"""
+    from . import gates as G
+    db = ctx.db
+    ctx.rule("R20.13", "in merge_from, behind `remap.in_map(i)` being true, no container member of the database receives i (only values derived from remap.map_from(i))")
+    f = db.fn("InterrogateDatabase::merge_from")
+    n = 0
+    for q in f.walk():
+        if not (q.get("k") == "call" and callee_short(q) == "in_map" and q.get("a")):
+            continue
+        r = local_ref(q["a"][0])
+        if r is None:
+            continue
+        d = r["d"]
+        e_true = G.edges_where(f, lambda atom, truth, q=q: truth and (strip_casts(peel(atom)) or {}).get("i") == q.get("i"))
+        if not e_true:
+            continue
+        for c in f.walk():
+            if not (c.get("k") == "call" and callee_short(c) in ("push_back", "insert", "emplace_back") and "this" in c and c.get("a")):
+                continue
+            tgt = field_of(strip_casts(peel(c["this"]))) or ""
+            if not tgt.startswith("InterrogateDatabase::_"):
+                continue
+            if not G.gated(f, c, e_true):
+                continue
+            n += 1
+            uses_incoming = any(z.get("k") == "ref" and z.get("d") == d for a in c["a"] for z in walk(a))
+            ctx.ob("R20.13", "merge_from|%s.%s(%s)|surviving-index" % (tgt.split("::")[-1], callee_short(c), show(c["a"][0]).replace(" ", "")[:30]), not uses_incoming, f.loc(c),
+                   "the list receives the surviving index" if not uses_incoming else "the list receives `%s`, the incoming index that was just mapped away" % r.get("n"))
+    ctx.floor("R20.13", "lists extended on a merge branch of merge_from", n, 1)
